@@ -136,6 +136,7 @@ type world struct {
 	nextID int
 	// the live header row, if some add-time row callback was handed it (whether that happens is not specified; if
 	// it does, the row is an owner like any other row)
+	lateRegs  []*reg
 	hdrRow    *tabular.Row
 	hdrRowGen int
 	inHdrOp   bool
@@ -674,7 +675,45 @@ func checkCase(c Case) *ev.Violation {
 				break
 			}
 			j := ((st.Target % len(src.Cells)) + len(src.Cells)) % len(src.Cells)
+			if st.N > 0 {
+				// prefer a source cell that owns render callbacks of its own: the copy carries them, and what is registered
+				// afterwards on the one must not show on the other
+				type at struct {
+					r *gen.MRow
+					j int
+				}
+				var owning []at
+				for _, r := range w.regs {
+					if r.owner == "cell" && r.when == wRender && r.target == tItself && r.row != nil && r.row.Attached && !r.row.Sep && !r.row.NilCells &&
+						r.cell < len(r.row.Cells) && len(r.row.Real.Cells()) == len(r.row.Cells) {
+						owning = append(owning, at{r.row, r.cell})
+					}
+				}
+				if len(owning) > 0 {
+					pick := owning[((st.Ref%len(owning))+len(owning))%len(owning)]
+					src, j = pick.r, pick.j
+				}
+			}
 			cp := src.Real.Cells()[j] // a Cell value
+			var copyOnly []*reg
+			if st.N > 0 {
+				// one more on the original, then one more on the free-standing copy (before it is added anywhere)
+				w.nextID++
+				rx := &reg{id: w.nextID, owner: "cell", row: src, cell: j, when: wRender, target: tItself}
+				if err := t.RegisterPropertyCallback(&src.Real.Cells()[j], tabular.CB_AT_RENDER, tabular.CB_ON_ITSELF, &recorder{r: rx, w: w}); err != nil {
+					return ev.V("step %d: registering on a live cell failed: %v", step, err)
+				}
+				byID[rx.id] = rx
+				w.nextID++
+				ry := &reg{id: w.nextID, owner: "cell", when: wRender, target: tItself}
+				if err := t.RegisterPropertyCallback(&cp, tabular.CB_AT_RENDER, tabular.CB_ON_ITSELF, &recorder{r: ry, w: w}); err != nil {
+					return ev.V("step %d: registering on a free-standing copy of a cell failed: %v", step, err)
+				}
+				byID[ry.id] = ry
+				copyOnly = append(copyOnly, ry)
+				// rx joins the registrations only after the clones have been taken (the copy was made before rx existed)
+				w.lateRegs = append(w.lateRegs, rx)
+			}
 			w.predictOp(gen.Op{K: "rowadd", Ref: w.rowIndex(dst), Items: []gen.Item{src.Cells[j].It}}, &pred)
 			dst.Real.Add(cp)
 			dst.Cells = append(dst.Cells, src.Cells[j])
@@ -692,6 +731,12 @@ func checkCase(c Case) *ev.Violation {
 				}
 			}
 			w.regs = append(w.regs, clones...)
+			for _, ry := range copyOnly {
+				ry.row, ry.cell = dst, len(dst.Cells)-1
+				w.regs = append(w.regs, ry)
+			}
+			w.regs = append(w.regs, w.lateRegs...)
+			w.lateRegs = nil
 		case "dense":
 			// one slot gets crowded: N cell callbacks on the table and one on each of the first columns, all at the same time
 			n := st.N
